@@ -3,6 +3,8 @@
 //        instr (instrument the IR itself with yield calls for native replay).
 #pragma once
 #include <llvm/ADT/DenseMap.h>
+#include <llvm/ADT/PostOrderIterator.h>
+#include <llvm/IR/CFG.h>
 #include <llvm/ADT/SmallPtrSet.h>
 #include <llvm/ADT/StringExtras.h>
 #include <llvm/Demangle/Demangle.h>
@@ -37,6 +39,7 @@ struct Ctx
     Module& M;
     const DataLayout& DL;
     bool res = false;    // resumable mode
+    bool chain = false;  // res mode layout: skip chain (Lazy-CSeq style) instead of early returns
     std::string prefix;  // root prefix
 
     // reachability
@@ -46,6 +49,7 @@ struct Ctx
     std::set<GlobalVariable*> reachG;
     std::set<Function*> addrTaken;
     std::set<Function*> resumable;
+    std::set<Function*> skipCalls;    // dynamic initialisers irrelevant to the scenario
 
     // names
     DenseMap<Type*, std::string> tyNames;
@@ -80,4 +84,5 @@ std::string sty(unsigned n);
 std::string maskTo(unsigned n, const std::string& e);
 std::string sextOf(unsigned n, const std::string& e);
 bool isVisibleInst(const Instruction& I);
+bool compatibleFT(FunctionType* A, FunctionType* B);
 std::string sanitize(StringRef s);
